@@ -88,6 +88,11 @@ CHECKS.update({
         text="C11_doc_*_aliases / C11_doc_*_lex are decided by computation over the regenerated tables and the lexer model; C11_case_insensitive is proved for every string and re-casing function. On every run generated valid queries are rendered with every alias of every aliased token, case variants of every word, both bracket styles, optional tokens, full and partial argument splits; the real parser's Query and the binary's output must be identical to the canonical rendering's.",
         note="Known finding F23: with several arguments the search root extends to the end of its argument, so partial splits that leave words after the root in the same argument change the query; the generator keeps the root alone in its argument and the witness is replayed. Unicode lower-casing of keywords is modelled as ASCII (+ Kelvin sign).",
         design="6 C11"),
+    "C14": dict(
+        technique="Coq model of parse_filesize (ladder regenerated from util/mod.rs) and of format_filesize / humansize with binary64 arithmetic in Z (round-to-nearest-even proved) + theorems against the documented unit table + exact differential test of the real functions against the model and documentation-level oracles on the real functions and the binary",
+        text="C14_ladder_is_the_documented_table (the regenerated ladder reaches every documented unit with its documented multiplier, without shadowing, and has no other unit), C14_units_exact (every integer x every unit spelling below 2^53), C14_fraction_exact (dyadic fractions: floor(number x multiplier)), C14_format_documented_examples (the fifteen documented rows), C14_format_roundtrip/monotone_below_2_16 and _grid (finite domains), C14_rounding_is_nearest_even. On every run: literals through the real parse_filesize vs number x documented multiplier; `size OP literal` on boundary sizes on the binary; FORMAT_SIZE specifiers judged from the documented grammar (unit, space, decimals, value, short flag); monotone / reads-back on random sizes; model.Size = real functions exactly.",
+        note="Monotonicity and read-back of the rendering are finite-domain theorems (every size below 2^16 and all 2^k-1, 2^k, 2^k+1), not proofs for all sizes; beyond 2^53 a literal loses low bits in binary64 (units_exact_bound_sharp); rendering uses PiB/EiB which literals cannot express; specifiers the documentation does not describe are compared with the model only. Trusted: humansize 2.1.3 transcription (validated every run), SoftF64 parse/print of decimal texts (differentially tested).",
+        design="6 C14"),
     "C15": dict(
         technique="Coq proofs over the model of the parser and of the Display text of expressions: for EVERY arithmetic expression (numbers, columns, leading minus, + - * / %), rendering with exactly the brackets the documented precedence/associativity requires and parsing with the model of Parser::parse_add_sub (parser's own fuel) returns that very tree; the Display text that keys the per-row value cache is injective on such expressions + executable model of the whole pipeline with witnesses + differential test of select lists and WHERE expressions",
         text="C15_parser_precedence_assoc (all expressions, any position in any token list), C15_cache_key_injective / C15_cache_key_readable (two different expressions never share a cache slot), C15_operator_table (ArithmeticOp::calc as regenerated), C15_parse_witnesses (through lexer, parser and evaluator). On every run random expressions to depth 4 in select lists of 1-5 columns are evaluated by the binary and compared with binary64 arithmetic (oracle), with the same column selected alone, and with the model pipeline; WHERE on expressions likewise.",
